@@ -20,9 +20,7 @@ TRUSTED_BASE = [
 ]
 ASSUMPTIONS = ["different PYTHONHASHSEED values and junk allocations before import move string hashes and object addresses, "
                "which is what set iteration order depends on"]
-PARTIAL = ["C14_full (permutation invariance of the whole pipeline through shrink_top and the rewriters) is stated, not proved; "
-           "proved: equivalence preserves membership, union_mk is order- and multiplicity-insensitive, sorting and "
-           "distinct-row extraction are permutation invariant (Props/C14.v)"]
+PARTIAL = ["C14_merge_full (equivb-invariance of shrink_top with TypedDicts) and C14_full (invariance through the rewriters under a consistent-MRO premise) are stated as Definitions and only tested (vm_compute sweeps, differential runs); proved: member_equivb, equivb is an equivalence on well-formed types, union_mk and the TypedDict-free merge are order- and multiplicity-insensitive (membership level), sorting and distinct-row extraction are permutation invariant; the ambiguous-ancestor dependence of RewriteLargeUnion is refuted with a Coq witness"]
 
 FIXTURE = '''
 class X: pass
